@@ -437,8 +437,11 @@ template <class T, sz N, class C = typename default_coord<T>::type> struct dom
   }
   static void probe(std::string const &s)
   {
+    // Reading a moved-from coordinate is not forbidden by anything the property or the documentation says (the
+    // state of a moved-from scalar is the scalar's business); a harmful read shows in the results, which are
+    // checked.  Information only.
     if (unsigned long const n = move_probe<T>::take())
-      vrt::fail(s + ":read_of_moved_from_scalar", std::to_string(n) + " reads of a moved-from coordinate value");
+      vrt::count("info:" + s + ":read_of_moved_from_scalar", n);
   }
 
   ll lo, hi;   // corner range (corner c has lattice index S*c)
@@ -606,7 +609,19 @@ template <class T, sz N, class C = typename default_coord<T>::type> struct dom
           rbox<N> const r = rd(R_);
           std::ptrdiff_t const ri = index_of(r);
           if (ri < 0)
-            vrt::fail(s_intersection + ":corner_not_from_inputs", "result " + raw(R_) + " has a corner that is no corner of a or b");
+          {
+            // A NON-empty box is determined by its point set, so a result with a corner that is no lattice value
+            // cannot have exactly the common points.  An EMPTY result may have any corners ("contains exactly the
+            // common points" only asks for emptiness then): information only.
+            bool result_empty = false;
+            for (sz i = 0; i < N; ++i)
+              if (!(R_.pos().get_unsafe(i) < R_.max().get_unsafe(i)))
+                result_empty = true;
+            if (result_empty && common.none())
+              vrt::count("info:" + s_intersection + ":empty_result_with_other_corners");
+            else
+              vrt::fail(s_intersection + ":corner_not_from_inputs", "result " + raw(R_) + " has a corner that is no corner of a or b");
+          }
           else
             VRT_CHECK(masks[static_cast<std::size_t>(ri)] == common, s_intersection + ":point_set",
                       "result %s has %zu points, the boxes have %zu common points", sh(r).c_str(),
@@ -723,8 +738,21 @@ template <class T, sz N, class C = typename default_coord<T>::type> struct dom
               ka[N + i] = static_cast<T>(C::to(boxes[a].m[i]) - C::to(boxes[a].p[i]));
               kb[N + i] = static_cast<T>(C::to(boxes[b].m[i]) - C::to(boxes[b].p[i]));
             }
-            VRT_CHECK(lt == (ka < kb), s_cmp + ":lt", "operator< gives %d, lexicographic (pos,size) gives %d", int(lt),
-                      int(ka < kb));
+            // "Compare two boxes lexicographically" does not say whether the second key is size or max; the check
+            // is a verdict only where both readings agree (they differ for inverted unsigned boxes, whose size wraps)
+            std::array<T, 2 * N> ma{}, mb{};
+            for (sz i = 0; i < N; ++i)
+            {
+              ma[i] = ka[i];
+              mb[i] = kb[i];
+              ma[N + i] = C::to(boxes[a].m[i]);
+              mb[N + i] = C::to(boxes[b].m[i]);
+            }
+            if ((ka < kb) == (ma < mb))
+              VRT_CHECK(lt == (ka < kb), s_cmp + ":lt", "operator< gives %d, lexicographic (pos,size) and (pos,max) give %d",
+                        int(lt), int(ka < kb));
+            else if (lt != (ka < kb))
+              vrt::count("info:" + s_cmp + ":lt_differs_from_pos_size_order");
             VRT_CHECK(int(lt) + int(gt) + int(eq) == 1, s_cmp + ":trichotomy", "lt=%d gt=%d eq=%d", int(lt), int(gt),
                       int(eq));
             probe(s_cmp);
@@ -787,7 +815,27 @@ template <class T, sz N, class C = typename default_coord<T>::type> struct dom
             want.p[i] = std::min(x[i], ra.p[i]);
             want.m[i] = std::max(x[i], ra.m[i]);
           }
-          VRT_CHECK(r == want, s_ep + ":hull", "got %s want closed hull %s", raw(R_).c_str(), sh(want).c_str());
+          // "a box that's just big enough to hold the given point": the lower corner is min(p,pos) under every
+          // reading; the upper corner is max(p,max) under the closed reading (what the code and the repository's
+          // test do) and max(succ(p),max) under the half-open reading.  Verdict: lower corner, and the upper corner
+          // neither below the closed hull nor (integer-like T) above the half-open one; anything in between is
+          // information.
+          bool lower_ok = true, upper_ok = true;
+          for (sz i = 0; i < N; ++i)
+          {
+            if (r.p[i] != want.p[i])
+              lower_ok = false;
+            if (r.m[i] == off_lattice)
+            {
+              if (!(R_.max().get_unsafe(i) >= C::to(want.m[i])))
+                upper_ok = false;
+            }
+            else if (r.m[i] < want.m[i] || (C::exact && r.m[i] > std::max(x[i] + 1, ra.m[i])))
+              upper_ok = false;
+          }
+          VRT_CHECK(lower_ok && upper_ok, s_ep + ":hull", "got %s, closed hull is %s", raw(R_).c_str(), sh(want).c_str());
+          if (lower_ok && upper_ok && !(r == want))
+            vrt::count("info:" + s_ep + ":not_the_closed_hull");
           if (!member<N>(r, x))
             vrt::count("info:extend_point_result_excludes_point(half-open)");
           probe(s_ep);
@@ -872,16 +920,21 @@ template <class T, sz N, class C = typename default_coord<T>::type> struct dom
             VRT_CHECK(got.m[i] == maxpt[a][i] + 1, s_obj + ":max_vs_points", "axis %d", int(i));
           }
         }
-        VRT_CHECK(A.left() == P[0] && A.right() == M[0], s_obj + ":left_right", "left/right");
+        // left/right/top/bottom/front/back are undocumented; which corner each returns is a convention of the
+        // implementation: information only
+        if (!(A.left() == P[0] && A.right() == M[0]))
+          vrt::count("info:" + s_obj + ":left_right_convention");
         interval_check<0>(A, ra, s_obj);
         if constexpr (N >= 2)
         {
-          VRT_CHECK(A.top() == P[1] && A.bottom() == M[1], s_obj + ":top_bottom", "top/bottom");
+          if (!(A.top() == P[1] && A.bottom() == M[1]))
+            vrt::count("info:" + s_obj + ":top_bottom_convention");
           interval_check<1>(A, ra, s_obj);
         }
         if constexpr (N >= 3)
         {
-          VRT_CHECK(A.front() == P[2] && A.back() == M[2], s_obj + ":front_back", "front/back");
+          if (!(A.front() == P[2] && A.back() == M[2]))
+            vrt::count("info:" + s_obj + ":front_back_convention");
           interval_check<2>(A, ra, s_obj);
         }
         // setters through the reference getters
@@ -917,22 +970,43 @@ template <class T, sz N, class C = typename default_coord<T>::type> struct dom
             std::sort(got.begin(), got.end());
             std::sort(want.begin(), want.end());
             VRT_CHECK(got == want, s_corner + ":set", "the corners are not {pos_i,max_i}^N");
-            if (got == want)
-              VRT_CHECK(order_ok, s_corner + ":order", "corner order differs from bit_strings order");
+            // the order of the corners is not documented for corner_points (it follows vector::bit_strings in the
+            // implementation): information only
+            if (got == want && !order_ok)
+              vrt::count("info:" + s_corner + ":order_differs_from_bit_strings");
           }
           else
           {
-            // floating point: the documented formula pos + bit*size in T (bit = 0 gives pos exactly)
+            // floating point: every corner coordinate is pos_i or max_i; for max_i the implementation's pos + 1*size
+            // (rounded in T) is accepted as well as max_i itself.  Compared as a multiset, the order is information.
+            std::vector<std::array<int, N>> got, want; // per coordinate: 0 = pos, 1 = max, 2 = neither
+            bool ok = true, order_ok = true;
             for (std::size_t k = 0; k < n && k < cp.size(); ++k)
+            {
+              std::array<int, N> g{}, w{};
               for (sz i = 0; i < N; ++i)
               {
-                T const bit = static_cast<T>((k >> i) & 1U);
-                T const want = P[i] + bit * (M[i] - P[i]);
-                VRT_CHECK(cp.get_unsafe(k).get_unsafe(i) == want, s_corner + ":set", "corner %zu axis %d is %s", k, int(i),
-                          C::raw(cp.get_unsafe(k).get_unsafe(i)).c_str());
-                if (((k >> i) & 1U) == 0)
-                  VRT_CHECK(cp.get_unsafe(k).get_unsafe(i) == P[i], s_corner + ":set", "corner %zu axis %d is not pos", k, int(i));
+                T const v = cp.get_unsafe(k).get_unsafe(i);
+                bool const is_pos = v == P[i], is_max = v == M[i] || v == P[i] + (M[i] - P[i]);
+                bool const degenerate = P[i] == M[i];
+                int const bit = static_cast<int>((k >> i) & 1U);
+                g[i] = degenerate ? (is_pos ? 0 : 2) : (is_pos ? 0 : (is_max ? 1 : 2));
+                w[i] = degenerate ? 0 : bit;
+                if (g[i] == 2)
+                  ok = false;
+                if (g[i] != w[i])
+                  order_ok = false;
               }
+              got.push_back(g);
+              want.push_back(w);
+            }
+            std::sort(got.begin(), got.end());
+            std::sort(want.begin(), want.end());
+            if (got != want)
+              ok = false;
+            VRT_CHECK(ok, s_corner + ":set", "the corners of %s are not {pos_i,max_i}^N", raw(A).c_str());
+            if (ok && !order_ok)
+              vrt::count("info:" + s_corner + ":order_differs_from_bit_strings");
           }
           probe(s_corner);
         }
@@ -948,22 +1022,29 @@ template <class T, sz N, class C = typename default_coord<T>::type> struct dom
             for (sz i = 0; i < N; ++i)
             {
               ll const twice = 2 * c[i] - (ra.p[i] + ra.m[i]);
-              VRT_CHECK(twice == 0 || twice == -1, s_center + ":wrong", "axis %d: centre %lld of [%lld,%lld)", int(i), c[i],
+              // "might not calculate the real center, since the calculation is performed using T": within 1/2 of
+              // the real centre, rounded either way
+              VRT_CHECK(twice >= -1 && twice <= 1, s_center + ":wrong", "axis %d: centre %lld of [%lld,%lld)", int(i), c[i],
                         ra.p[i], ra.m[i]);
             }
-            if (nonempty[a])
-              VRT_CHECK(member<N>(ra, c), s_center + ":outside", "centre %s is not a point of the box", sh(c).c_str());
+            // not promised (a centre rounded upwards may sit on the exclusive maximum of a box of size 1)
+            if (nonempty[a] && !member<N>(ra, c))
+              vrt::count("info:" + s_center + ":outside");
           }
           else
           {
             for (sz i = 0; i < N; ++i)
             {
-              T const want = P[i] + (M[i] - P[i]) / static_cast<T>(2);
+              // the midpoint evaluated in T: pos + size/2 and (pos+max)/2 are both accepted, and anything within a
+              // few ulps of them, inside the closed box
+              T const w1 = P[i] + (M[i] - P[i]) / static_cast<T>(2), w2 = (P[i] + M[i]) / static_cast<T>(2);
               T const got = cv.get_unsafe(i);
-              VRT_CHECK(got == want, s_center + ":wrong", "axis %d: centre %s", int(i), C::raw(got).c_str());
-              if (nonempty[a])
-                VRT_CHECK(P[i] <= got && got < M[i], s_center + ":outside", "axis %d: centre %s is outside", int(i),
-                          C::raw(got).c_str());
+              T const tol = static_cast<T>(4) * std::numeric_limits<T>::epsilon() *
+                                std::max(std::max(std::fabs(P[i]), std::fabs(M[i])), static_cast<T>(1));
+              bool const close = got == w1 || got == w2 || std::fabs(got - w1) <= tol;
+              VRT_CHECK(close && P[i] <= got && got <= M[i], s_center + ":wrong", "axis %d: centre %s", int(i), C::raw(got).c_str());
+              if (nonempty[a] && !(got < M[i]))
+                vrt::count("info:" + s_center + ":outside");
             }
           }
           probe(s_center);
@@ -1158,7 +1239,13 @@ template <class T, sz N, class C = typename default_coord<T>::type> struct dom
             for (sz i = 0; i < N; ++i)
               if (r.p[i] < blo || r.p[i] > bhi || r.m[i] < blo || r.m[i] > bhi)
                 in_range = false;
-            VRT_CHECK(in_range, s + ":corner_out_of_range", "result %s", raw(R_).c_str());
+            bool result_nonempty = true;
+            for (sz i = 0; i < N; ++i)
+              if (!(r.p[i] < r.m[i]))
+                result_nonempty = false;
+            // an empty result may have any corners; a non-empty one outside the range has points it must not have
+            if (result_nonempty)
+              VRT_CHECK(in_range, s + ":corner_out_of_range", "result %s", raw(R_).c_str());
             for (pt<N> const &x : big)
             {
               bool want = is_shrink;
@@ -1403,7 +1490,7 @@ template <class T, sz N, class C = typename default_coord<T>::type> inline void 
                     (dom<T, N, C>::raw(B)).c_str());
         }
         if (unsigned long const n = move_probe<T>::take())
-          vrt::fail(base + ":read_of_moved_from_scalar", std::to_string(n) + " reads");
+          vrt::count("info:" + base + ":read_of_moved_from_scalar", n);
       }
       // (c) the k-th invocation throws: the exception propagates, no further invocation, nothing leaks
       for (int k = 1; k <= static_cast<int>(N); ++k)
